@@ -70,9 +70,17 @@ func New() W { return W{} }
 `}},
 		{Import: "example.com/lib/v", Path: "example.com/app/vendor/example.com/lib/v", Files: map[string]string{"v.go": `package v
 
+import "example.com/myvendor/w"
+
 type Vend struct{ X int }
 
 func Make() Vend { return Vend{} }
+
+var Shared = Make()
+
+var other = w.New()
+
+func use() (Vend, w.W) { return Shared, other }
 `}},
 	}
 }
